@@ -192,33 +192,48 @@ theorem child_u32_roundtrip (n : Nat) (h : n < 2^32) :
 theorem child_roundtrip (c : ChildNumber) (h : c.WF) : ChildNumber.ofU32 c.toU32 = c :=
   toU32_ofU32 c h
 
-/-- `to_path (from_path p) = p` for every path: every `u8` depth (also > 4) and all u32 components. -/
-theorem path_roundtrip (p : Path) (h : p.WF) : p.toIdentifier.toPath = p := by
+/-- `to_path (from_path p)` for every path struct — every `u8` depth, all u32 components: the same
+components, the depth **clamped to 4** (`from_identifier`, repair cb1f5b25f); hence `= p` for every
+path of depth ≤ 4. -/
+theorem path_roundtrip (p : Path) (h : p.WF) :
+    p.toIdentifier.toPath = { p with depth := min p.depth 4 } ∧
+      (p.depth ≤ 4 → p.toIdentifier.toPath = p) := by
   obtain ⟨hd, h0, h1, h2, h3⟩ := h
   obtain ⟨d, c0, c1, c2, c3⟩ := p
-  simp only [Path.toIdentifier, u32be, List.cons_append, List.nil_append, Ident.toPath]
-  rw [readU32_u32be _ (toU32_lt _ h0), readU32_u32be _ (toU32_lt _ h1),
-    readU32_u32be _ (toU32_lt _ h2), readU32_u32be _ (toU32_lt _ h3),
-    toU32_ofU32 _ h0, toU32_ofU32 _ h1, toU32_ofU32 _ h2, toU32_ofU32 _ h3, Nat.mod_eq_of_lt hd]
+  have e : Ident.toPath (Path.toIdentifier ⟨d, c0, c1, c2, c3⟩) = ⟨min d 4, c0, c1, c2, c3⟩ := by
+    simp only [Path.toIdentifier, u32be, List.cons_append, List.nil_append, Ident.toPath]
+    rw [readU32_u32be _ (toU32_lt _ h0), readU32_u32be _ (toU32_lt _ h1),
+      readU32_u32be _ (toU32_lt _ h2), readU32_u32be _ (toU32_lt _ h3),
+      toU32_ofU32 _ h0, toU32_ofU32 _ h1, toU32_ofU32 _ h2, toU32_ofU32 _ h3, Nat.mod_eq_of_lt hd]
+  refine ⟨e, ?_⟩
+  intro hle
+  simp only at hle
+  rw [e]
+  congr 1; omega
 
 /-- … in terms of the constructor `ExtKeychainPath::new(depth, d0, d1, d2, d3)` on raw integers. -/
 theorem path_new_roundtrip (depth d0 d1 d2 d3 : Nat) (hd : depth < 256)
     (h0 : d0 < 2^32) (h1 : d1 < 2^32) (h2 : d2 < 2^32) (h3 : d3 < 2^32) :
-    (deriveKeyId depth d0 d1 d2 d3).toPath = Path.new depth d0 d1 d2 d3 :=
-  path_roundtrip _ ⟨hd, ofU32_WF _ h0, ofU32_WF _ h1, ofU32_WF _ h2, ofU32_WF _ h3⟩
+    (deriveKeyId depth d0 d1 d2 d3).toPath = Path.new (min depth 4) d0 d1 d2 d3 :=
+  (path_roundtrip _ ⟨hd, ofU32_WF _ h0, ofU32_WF _ h1, ofU32_WF _ h2, ofU32_WF _ h3⟩).1
 
-/-- `from_path (to_path id) = id` for **every** 17-byte identifier — whatever its depth byte. -/
-theorem ident_roundtrip (id : Ident) (h : IdWF id) : id.toPath.toIdentifier = id := by
-  obtain ⟨hl, hb⟩ := h
-  obtain ⟨d, a0, a1, a2, a3, b0, b1, b2, b3, e0, e1, e2, e3, f0, f1, f2, f3, rfl⟩ := list17 id hl
-  simp only [List.mem_cons, List.not_mem_nil, or_false, forall_eq_or_imp, forall_eq] at hb
-  obtain ⟨hd, ha0, ha1, ha2, ha3, hb0, hb1, hb2, hb3, he0, he1, he2, he3, hf0, hf1, hf2, hf3⟩ := hb
-  simp only [Ident.toPath, Path.toIdentifier]
-  rw [ofU32_toU32 _ (readU32_lt _ _ _ _ ha0 ha1 ha2 ha3), ofU32_toU32 _ (readU32_lt _ _ _ _ hb0 hb1 hb2 hb3),
-    ofU32_toU32 _ (readU32_lt _ _ _ _ he0 he1 he2 he3), ofU32_toU32 _ (readU32_lt _ _ _ _ hf0 hf1 hf2 hf3),
-    u32be_readU32 _ _ _ _ ha0 ha1 ha2 ha3, u32be_readU32 _ _ _ _ hb0 hb1 hb2 hb3,
-    u32be_readU32 _ _ _ _ he0 he1 he2 he3, u32be_readU32 _ _ _ _ hf0 hf1 hf2 hf3, Nat.mod_eq_of_lt hd]
-  rfl
+/-- `from_path (to_path id)` for **every** 17-byte identifier: the identifier with its depth byte
+clamped to 4 — `id` itself whenever the depth byte is at most 4. -/
+theorem ident_roundtrip (id : Ident) (h : IdWF id) :
+    id.toPath.toIdentifier = clampId id ∧ (id.depthByte ≤ 4 → id.toPath.toIdentifier = id) := by
+  have e : id.toPath.toIdentifier = clampId id := by
+    obtain ⟨hl, hb⟩ := h
+    obtain ⟨d, a0, a1, a2, a3, b0, b1, b2, b3, e0, e1, e2, e3, f0, f1, f2, f3, rfl⟩ := list17 id hl
+    simp only [List.mem_cons, List.not_mem_nil, or_false, forall_eq_or_imp, forall_eq] at hb
+    obtain ⟨hd, ha0, ha1, ha2, ha3, hb0, hb1, hb2, hb3, he0, he1, he2, he3, hf0, hf1, hf2, hf3⟩ := hb
+    have hm : min d 4 % 256 = min d 4 := by omega
+    simp only [Ident.toPath, Path.toIdentifier, clampId, List.headD_cons, List.drop_succ_cons, List.drop_zero]
+    rw [ofU32_toU32 _ (readU32_lt _ _ _ _ ha0 ha1 ha2 ha3), ofU32_toU32 _ (readU32_lt _ _ _ _ hb0 hb1 hb2 hb3),
+      ofU32_toU32 _ (readU32_lt _ _ _ _ he0 he1 he2 he3), ofU32_toU32 _ (readU32_lt _ _ _ _ hf0 hf1 hf2 hf3),
+      u32be_readU32 _ _ _ _ ha0 ha1 ha2 ha3, u32be_readU32 _ _ _ _ hb0 hb1 hb2 hb3,
+      u32be_readU32 _ _ _ _ he0 he1 he2 he3, u32be_readU32 _ _ _ _ hf0 hf1 hf2 hf3, hm]
+    rfl
+  exact ⟨e, fun hd => by rw [e, clampId_of_le id h hd]⟩
 
 /-- the identifier of a path is a well-formed identifier (17 bytes) -/
 theorem toIdentifier_WF (p : Path) : IdWF p.toIdentifier := by
@@ -243,38 +258,63 @@ theorem fromBytes_spec (b : Bytes) :
   intro h
   simp [Ident.fromBytes, fit, h]
 
-/-- `parent_path`, `last_path_index` and `derive_key`'s path walk index a 4-array with the depth
-byte: they panic exactly for identifiers whose depth byte is > 4. -/
-theorem depth_gt4_panics (id : Ident) :
-    (id.toPath.prefix? = none ↔ 4 < id.toPath.depth) ∧
-    (id.parentPath = none ↔ 4 < id.toPath.depth) ∧
-    (id.toPath.lastPathIndex = none ↔ 4 < id.toPath.depth) := by
-  refine ⟨?_, ?_, ?_⟩
-  · simp only [Path.prefix?]
-    split <;> simp <;> omega
+/-- **Every 17-byte identifier is usable** (repair cb1f5b25f of the recorded finding
+C20-depth-gt4-panic): `to_path` never returns a depth above 4, so `derive_key`'s path walk,
+`parent_path`, `last_path_index` and `to_bip_32_string` never index out of the 4-array — whatever
+the depth byte (0..255). -/
+theorem identifier_ops_total (id : Ident) :
+    id.toPath.depth ≤ 4 ∧ id.toPath.prefix? ≠ none ∧ id.parentPath ≠ none ∧
+    id.toPath.lastPathIndex ≠ none ∧ id.bip32 ≠ none := by
+  have hd := toPath_depth_le4 id
+  refine ⟨hd, ?_, ?_, ?_, ?_⟩
+  · simp [Path.prefix?, hd]
   · simp only [Ident.parentPath]
     split
-    · split <;> simp <;> omega
-    · simp; omega
+    · rw [if_pos (by omega)]; simp
+    · simp
   · simp only [Path.lastPathIndex]
     split
-    · simp; omega
+    · simp
     · rename_i hne
       generalize hdp : id.toPath.depth = dp at *
-      match dp, hne with
-      | 1, _ => simp [Path.get?]
-      | 2, _ => simp [Path.get?]
-      | 3, _ => simp [Path.get?]
-      | 4, _ => simp [Path.get?]
-      | n + 5, _ => simp [Path.get?]
+      match dp, hne, hd with
+      | 1, _, _ => simp [Path.get?]
+      | 2, _, _ => simp [Path.get?]
+      | 3, _, _ => simp [Path.get?]
+      | 4, _, _ => simp [Path.get?]
+  · simp [Ident.bip32, Path.prefix?, hd]
 
-/-- `derive_key` on the real path walk panics for a depth byte > 4, for every keychain. -/
-theorem derive_depth_gt4 {K : Type} (kd : KeyDeriv K) (amount : Nat) (id : Ident) (sw : Switch)
-    (h : 4 < id.toPath.depth) : ∃ r, deriveKey kd amount id sw = r ∧ (∀ k, r ≠ .ok k) := by
-  refine ⟨_, rfl, ?_⟩
-  intro k
-  have : id.toPath.prefix? = none := ((depth_gt4_panics id).1).mpr h
-  simp [deriveKey, this]
+/-- The panic that still exists: the `depth` field of the path *struct* is public, and a struct with
+depth above 4 (`ExtKeychainPath::new(5, ..)` used directly, not obtained from an identifier) still
+makes `last_path_index` and the path walk index out of bounds. -/
+theorem path_struct_depth_gt4_panics (p : Path) (h : 4 < p.depth) :
+    p.lastPathIndex = none ∧ p.prefix? = none := by
+  constructor
+  · simp only [Path.lastPathIndex]
+    rw [if_neg (by omega)]
+    generalize hdp : p.depth = dp at *
+    match dp, h with
+    | n + 5, _ => simp [Path.get?]
+  · simp only [Path.prefix?]; rw [if_neg (by omega)]
+
+/-- **derive_key / commit are total on all identifiers** and read the depth byte only through
+`min(·, 4)`: they never panic, and for a depth byte above 4 the result is the one for the same four
+components with depth 4 (`clampId id`). -/
+theorem derive_total {K : Type} (kd : KeyDeriv K) (amount : Nat) (id : Ident) (sw : Switch)
+    (h : IdWF id) :
+    (∀ r, deriveKey kd amount id sw = r → r = .panic → False) ∧
+    deriveKey kd amount id sw = deriveKey kd amount (clampId id) sw ∧
+    commit kd amount id sw = commit kd amount (clampId id) sw := by
+  have hp : id.toPath.prefix? = some id.words := prefix?_eq_words id (toPath_depth_le4 id)
+  have hc : deriveKey kd amount id sw = deriveKey kd amount (clampId id) sw := by
+    simp only [deriveKey, toPath_clampId id h]
+  refine ⟨?_, hc, by simp only [commit, hc]⟩
+  intro r hr hpan
+  subst hr
+  simp only [deriveKey, hp] at hpan
+  split at hpan
+  · cases hpan
+  · cases sw <;> cases hpan
 
 /-! ## range-proof messages -/
 
@@ -288,12 +328,12 @@ theorem parse_message (id : Ident) (sw : Switch) (h : IdWF id) :
   simp [parseMessage, proofMessage, switch_roundtrip, Ident.fromSerializedPath, hd]
 
 /-- byte-level round trip of the message for depth ≤ 4 -/
-theorem parse_roundtrip (id : Ident) (sw : Switch) (h : IdWF id) (hd : id.toPath.depth ≤ 4) :
+theorem parse_roundtrip (id : Ident) (sw : Switch) (h : IdWF id) (hd : id.depthByte ≤ 4) :
     parseMessage (proofMessage id sw) = some (id, sw) := by
   have hp := parse_message id sw h
   obtain ⟨hl, _⟩ := h
   obtain ⟨d, a0, a1, a2, a3, b0, b1, b2, b3, e0, e1, e2, e3, f0, f1, f2, f3, rfl⟩ := list17 id hl
-  simp only [Ident.toPath] at hd
+  simp only [Ident.depthByte, List.headD_cons] at hd
   have : min d 4 = d := by omega
   simpa only [List.headD_cons, List.drop_succ_cons, List.drop_zero, this] using hp
 
@@ -302,7 +342,7 @@ identifier of depth ≤ 4 whose used components are not hardened, for every non-
 that is all it can do in the code as it is: a `Regular` output or a zero amount gives `Err`
 (`ViewKey::commit`), a hardened component gives `None`. -/
 theorem view_message_roundtrip (vkChild : ChildNumber) (pubMatches : Ident → Switch → Bool)
-    (amount : Nat) (id : Ident) (sw : Switch) (h : IdWF id) (hd : id.toPath.depth ≤ 4) :
+    (amount : Nat) (id : Ident) (sw : Switch) (h : IdWF id) (hd : id.depthByte ≤ 4) :
     viewCheckOutput 0 vkChild pubMatches amount (proofMessage id sw) =
       if (id.toPath.comps.take id.toPath.depth).any ChildNumber.isHardened then .none
       else if amount = 0 then .err
@@ -317,36 +357,43 @@ theorem view_message_roundtrip (vkChild : ChildNumber) (pubMatches : Ident → S
     · rfl
     · cases sw <;> rfl
 
-/-- **message_roundtrip (ProofBuilder)**: for every identifier of depth ≤ 4 — all u32 components —
-and both switch modes, `check_output` on the commitment made for `(amount, id, switch)` and the
-message `proof_message(id, switch)` returns exactly `(id, switch)`. `commitOf` is any (deterministic)
-`keychain.commit`. -/
+/-- **message_roundtrip (ProofBuilder), every 17-byte identifier**: `check_output` on the commitment
+made for `(amount, id, switch)` and the message `proof_message(id, switch)` returns the switch and
+the identifier **with its depth byte clamped to 4** — exactly `(id, switch)` whenever the depth byte
+is at most 4.  `commitOf` is any `keychain.commit` that, like the real one, reads the depth byte
+only through `to_path` (`hcl`; `derive_total` for the model's `commit`). -/
+theorem message_roundtrip_all (commitOf : Nat → Ident → Switch → Res Opening) (amount : Nat) (id : Ident)
+    (sw : Switch) (c : Opening) (h : IdWF id)
+    (hcl : commitOf amount (clampId id) sw = commitOf amount id sw)
+    (hc : commitOf amount id sw = .ok c) :
+    checkOutput commitOf c amount (proofMessage id sw) = .some (clampId id) sw := by
+  simp [checkOutput, parseMessage_proofMessage_clamp id sw h, hcl, hc]
+
+/-- **message_roundtrip (ProofBuilder)**: for every identifier with depth byte ≤ 4 — all u32
+components — and both switch modes, `check_output` returns exactly `(id, switch)`. -/
 theorem message_roundtrip (commitOf : Nat → Ident → Switch → Res Opening) (amount : Nat) (id : Ident)
-    (sw : Switch) (c : Opening) (h : IdWF id) (hd : id.toPath.depth ≤ 4)
+    (sw : Switch) (c : Opening) (h : IdWF id) (hd : id.depthByte ≤ 4)
     (hc : commitOf amount id sw = .ok c) :
     checkOutput commitOf c amount (proofMessage id sw) = .some id sw := by
-  have hp := parse_message id sw h
-  obtain ⟨hl, _⟩ := h
-  obtain ⟨d, a0, a1, a2, a3, b0, b1, b2, b3, e0, e1, e2, e3, f0, f1, f2, f3, rfl⟩ := list17 id hl
-  simp only [Ident.toPath] at hd
-  have : min d 4 = d := by omega
-  simp only [List.headD_cons, List.drop_succ_cons, List.drop_zero, this] at hp
-  simp [checkOutput, hp, hc]
+  have e := clampId_of_le id h hd
+  have := message_roundtrip_all commitOf amount id sw c h (by rw [e]) hc
+  rw [e] at this; exact this
 
-/-- Depth bytes > 4 do **not** round-trip: the recovered identifier has depth byte 4, so it differs
-from the original (and names a different key). -/
-theorem message_depth_gt4 (id : Ident) (sw : Switch) (h : IdWF id) (hd : 4 < id.toPath.depth) :
-    ∃ id', parseMessage (proofMessage id sw) = some (id', sw) ∧ id' ≠ id ∧ id'.toPath.depth = 4 := by
-  have hp := parse_message id sw h
-  obtain ⟨hl, _⟩ := h
-  obtain ⟨d, a0, a1, a2, a3, b0, b1, b2, b3, e0, e1, e2, e3, f0, f1, f2, f3, rfl⟩ := list17 id hl
-  simp only [Ident.toPath] at hd
-  have : min d 4 = 4 := by omega
-  simp only [List.headD_cons, List.drop_succ_cons, List.drop_zero, this] at hp
-  refine ⟨_, hp, ?_, rfl⟩
-  intro he
-  injection he with he _
-  omega
+/-- Depth bytes > 4 do **not** round-trip through the message: what comes back is the identifier
+with depth byte 4 — a different 17-byte value that names the **same** key (`derive_total`). -/
+theorem message_depth_gt4 (id : Ident) (sw : Switch) (h : IdWF id) (hd : 4 < id.depthByte) :
+    parseMessage (proofMessage id sw) = some (clampId id, sw) ∧ clampId id ≠ id ∧
+      (clampId id).depthByte = 4 ∧ (clampId id).toPath = id.toPath := by
+  refine ⟨parseMessage_proofMessage_clamp id sw h, ?_, ?_, toPath_clampId id h⟩
+  · obtain ⟨hl, _⟩ := h
+    obtain ⟨d, a0, a1, a2, a3, b0, b1, b2, b3, e0, e1, e2, e3, f0, f1, f2, f3, rfl⟩ := list17 id hl
+    simp only [Ident.depthByte, List.headD_cons] at hd
+    simp only [clampId, List.headD_cons, List.drop_succ_cons, List.drop_zero]
+    intro he
+    injection he with he _
+    omega
+  · simp only [Ident.depthByte] at hd
+    simp only [clampId, Ident.depthByte, List.headD_cons]; omega
 
 /-- A message whose reserved / wallet-type bytes are not zero, whose switch byte is not 0 or 1, or
 whose length is not 20 is never accepted. -/
@@ -379,13 +426,13 @@ theorem legacy_parse_message (id : Ident) (sw : Switch) (h : IdWF id) :
 
 /-- **message_roundtrip (LegacyProofBuilder)**: exact for identifiers of depth 3 under `Regular`. -/
 theorem legacy_message_roundtrip (commitOf : Nat → Ident → Switch → Res Opening) (amount : Nat)
-    (id : Ident) (c : Opening) (h : IdWF id) (hd : id.toPath.depth = 3)
+    (id : Ident) (c : Opening) (h : IdWF id) (hd : id.depthByte = 3)
     (hc : commitOf amount id .regular = .ok c) :
     legacyCheckOutput commitOf c amount (legacyProofMessage id .regular) = .some id .regular := by
   have hp := legacy_parse_message id .regular h
   obtain ⟨hl, _⟩ := h
   obtain ⟨d, a0, a1, a2, a3, b0, b1, b2, b3, e0, e1, e2, e3, f0, f1, f2, f3, rfl⟩ := list17 id hl
-  simp only [Ident.toPath] at hd
+  simp only [Ident.depthByte, List.headD_cons] at hd
   subst hd
   simp only [List.drop_succ_cons, List.drop_zero] at hp
   simp [legacyCheckOutput, hp, hc]
@@ -396,7 +443,7 @@ theorem legacy_recovers_only_depth3_regular (commitOf : Nat → Ident → Switch
     (amount : Nat) (id id' : Ident) (sw sw' : Switch) (c : Opening) (h : IdWF id)
     (hr : legacyCheckOutput commitOf c amount (legacyProofMessage id sw) = .some id' sw') :
     id' = 3 :: id.drop 1 ∧ sw' = .regular ∧
-      ((id', sw') = (id, sw) → id.toPath.depth = 3 ∧ sw = .regular) := by
+      ((id', sw') = (id, sw) → id.depthByte = 3 ∧ sw = .regular) := by
   have hp := legacy_parse_message id sw h
   simp only [legacyCheckOutput, hp] at hr
   split at hr
@@ -410,7 +457,7 @@ theorem legacy_recovers_only_depth3_regular (commitOf : Nat → Ident → Switch
       obtain ⟨d, a0, a1, a2, a3, b0, b1, b2, b3, e0, e1, e2, e3, f0, f1, f2, f3, rfl⟩ := list17 id hl
       simp only [List.drop_succ_cons, List.drop_zero] at he1
       injection he1 with hd _
-      exact ⟨by simp [Ident.toPath, ← hd], he2.symm⟩
+      exact ⟨by simp [Ident.depthByte, ← hd], he2.symm⟩
     · cases hr
   · cases hr
   · cases hr
@@ -443,16 +490,19 @@ theorem derive_deterministic {K : Type} (kd : KeyDeriv K) (amount : Nat) (id : I
     ∀ r r', deriveKey kd amount id sw = r → deriveKey kd amount id sw = r' → r = r' := by
   intro r r' h h'; rw [← h, ← h']
 
-/-- **rewind_recovers (ProofBuilder)**: given the contracts of `Crypto`, the proof created for an
-output of depth ≤ 4 verifies, and rewinding it with the same builder returns exactly the amount,
-the identifier and the switch mode — for every amount in the u64 range and both modes. -/
-theorem rewind_recovers {K P : Type} (kd : KeyDeriv K) (cr : Crypto P) (rn pn : Opening → Nat)
+/-- **rewind_recovers (ProofBuilder), every 17-byte identifier**: given the contracts of `Crypto`,
+the proof created for an output `(amount, id, switch)` — whatever the depth byte of `id` — verifies,
+and rewinding it with the same builder returns exactly the amount and the switch mode and the
+identifier **with its depth byte clamped to 4** (`proof_message` copies the raw depth byte,
+`check_output` applies `min(·, 4)`): for a depth byte 5..255 the recovered identifier differs from
+the one used at creation in that byte only and names the same key. -/
+theorem rewind_recovers_all {K P : Type} (kd : KeyDeriv K) (cr : Crypto P) (rn pn : Opening → Nat)
     (amount : Nat) (id : Ident) (sw : Switch) (c : Opening) (proof : P)
-    (hid : IdWF id) (hd : id.toPath.depth ≤ 4) (ha : amount < 2^64)
+    (hid : IdWF id) (ha : amount < 2^64)
     (hc : commit kd amount id sw = .ok c)
     (hp : proofCreate kd cr (newBuilder kd rn pn) amount id sw = .ok proof) :
     cr.verify c proof = true ∧
-    proofRewind cr (newBuilder kd rn pn) c proof = .some amount id sw := by
+    proofRewind cr (newBuilder kd rn pn) c proof = .some amount (clampId id) sw := by
   have hv := commit_ok hc
   simp only [proofCreate, hc, newBuilder] at hp
   injection hp with hp
@@ -465,12 +515,26 @@ theorem rewind_recovers {K P : Type} (kd : KeyDeriv K) (cr : Crypto P) (rn pn : 
     simp [proofMessage, hl]
   refine ⟨cr.verify_honest _ _ _ _ _ ha, ?_⟩
   simp only [proofRewind, newBuilder, cr.rewind_same _ _ _ _ _ ha hlen,
-    message_roundtrip (commit kd) v id sw ⟨v, k⟩ hid hd hc]
+    message_roundtrip_all (commit kd) v id sw ⟨v, k⟩ hid ((derive_total kd v id sw hid).2.2).symm hc]
+
+/-- **rewind_recovers (ProofBuilder)**: for an output whose identifier has depth byte ≤ 4, rewinding
+returns exactly the amount, the identifier and the switch mode — for every amount in the u64 range
+and both modes. -/
+theorem rewind_recovers {K P : Type} (kd : KeyDeriv K) (cr : Crypto P) (rn pn : Opening → Nat)
+    (amount : Nat) (id : Ident) (sw : Switch) (c : Opening) (proof : P)
+    (hid : IdWF id) (hd : id.depthByte ≤ 4) (ha : amount < 2^64)
+    (hc : commit kd amount id sw = .ok c)
+    (hp : proofCreate kd cr (newBuilder kd rn pn) amount id sw = .ok proof) :
+    cr.verify c proof = true ∧
+    proofRewind cr (newBuilder kd rn pn) c proof = .some amount id sw := by
+  have := rewind_recovers_all kd cr rn pn amount id sw c proof hid ha hc hp
+  rw [clampId_of_le id hid hd] at this
+  exact this
 
 /-- **rewind_recovers (LegacyProofBuilder)**: the same for outputs of depth 3 under `Regular`. -/
 theorem legacy_rewind_recovers {K P : Type} (kd : KeyDeriv K) (cr : Crypto P) (rn : Opening → Nat)
     (amount : Nat) (id : Ident) (c : Opening) (proof : P)
-    (hid : IdWF id) (hd : id.toPath.depth = 3) (ha : amount < 2^64)
+    (hid : IdWF id) (hd : id.depthByte = 3) (ha : amount < 2^64)
     (hc : commit kd amount id .regular = .ok c)
     (hp : proofCreate kd cr (legacyBuilder kd rn) amount id .regular = .ok proof) :
     cr.verify c proof = true ∧
@@ -532,10 +596,11 @@ are `vk`, and the words `d..depth` are all normal (< 2^31). Otherwise — a hard
 view key, another account, a shorter path — it returns something else (never a wrong identifier:
 `view_check_exact`). -/
 theorem view_key_covers_iff {K : Type} (kd : KeyDeriv K) (hinj : DeriveInj kd) (vk : List ChildNumber)
-    (amount : Nat) (id : Ident) (c : Opening) (hid : IdWF id) (hd : id.toPath.depth ≤ 4)
+    (amount : Nat) (id : Ident) (c : Opening) (hid : IdWF id) (hraw : id.depthByte ≤ 4)
     (ha : amount ≠ 0) (hc : commit kd amount id .none = .ok c) :
     viewCheckAt kd vk c amount (proofMessage id .none) = .some id .none ↔ viewCovers vk id = true := by
-  rw [viewCheckAt_honest_none kd vk c amount id hid hd, viewCovers_iff]
+  have hd := toPath_depth_le4 id
+  rw [viewCheckAt_honest_none kd vk c amount id hid hraw, viewCovers_iff]
   constructor
   · intro h
     split at h
@@ -566,11 +631,11 @@ switch modes: whatever it returns, it is never a wrong identifier or mode — a 
 recorded finding C20-view-key-limits.) -/
 theorem view_check_exact {K : Type} (kd : KeyDeriv K) (hinj : DeriveInj kd) (vk : List ChildNumber)
     (amount : Nat) (id id' : Ident) (sw sw' : Switch) (c : Opening) (hid : IdWF id)
-    (hd : id.toPath.depth ≤ 4) (hc : commit kd amount id sw = .ok c)
+    (hraw : id.depthByte ≤ 4) (hc : commit kd amount id sw = .ok c)
     (h : viewCheckAt kd vk c amount (proofMessage id sw) = .some id' sw') :
     id' = id ∧ sw' = .none ∧ sw = .none ∧ amount ≠ 0 ∧ viewCovers vk id = true := by
   have h0 := h
-  rw [viewCheckAt_honest kd vk c amount id sw hid hd] at h
+  rw [viewCheckAt_honest kd vk c amount id sw hid hraw] at h
   split at h
   · cases h
   · split at h
@@ -587,7 +652,7 @@ theorem view_check_exact {K : Type} (kd : KeyDeriv K) (hinj : DeriveInj kd) (vk 
             split at h
             · injection h with h1 h2
               subst h1; subst h2
-              exact ⟨rfl, rfl, rfl, ha, (view_key_covers_iff kd hinj vk amount id c hid hd ha hc).mp h0⟩
+              exact ⟨rfl, rfl, rfl, ha, (view_key_covers_iff kd hinj vk amount id c hid hraw ha hc).mp h0⟩
             · cases h
 
 /-- **rewind_with_view_key_exact.** Given the contracts of `Crypto`: the proof created by
@@ -597,7 +662,7 @@ view key covers `id`, and to `None` (nothing) when it does not — whatever the 
 key and whether its words are hardened. -/
 theorem rewind_with_view_key_exact {K P : Type} (kd : KeyDeriv K) (hinj : DeriveInj kd) (cr : Crypto P)
     (rn pn : Opening → Nat) (vk : List ChildNumber) (amount : Nat) (id : Ident) (c : Opening) (proof : P)
-    (hid : IdWF id) (hd : id.toPath.depth ≤ 4) (ha : amount < 2^64) (ha0 : amount ≠ 0)
+    (hid : IdWF id) (hd : id.depthByte ≤ 4) (ha : amount < 2^64) (ha0 : amount ≠ 0)
     (hc : commit kd amount id .none = .ok c)
     (hp : proofCreate kd cr (newBuilder kd rn pn) amount id .none = .ok proof) :
     proofRewind cr (viewBuilder kd vk rn) c proof =
@@ -634,6 +699,84 @@ theorem rewind_with_view_key_exact {K P : Type} (kd : KeyDeriv K) (hinj : Derive
       simp only [ha0, if_false] at hr
       repeat' split at hr
       all_goals cases hr
+
+/-- the view key's `check_output` never looks at a depth byte above 4 either -/
+theorem view_check_msg_clamp {K : Type} (kd : KeyDeriv K) (vk : List ChildNumber) (c : Opening)
+    (amount : Nat) (id : Ident) (sw : Switch) (hid : IdWF id) :
+    viewCheckAt kd vk c amount (proofMessage id sw) =
+      viewCheckAt kd vk c amount (proofMessage (clampId id) sw) := by
+  have e : clampId (clampId id) = clampId id :=
+    clampId_of_le _ (clampId_WF id hid) (clampId_depthByte id)
+  simp only [viewCheckAt, viewCheckOutput, parseMessage_proofMessage_clamp id sw hid,
+    parseMessage_proofMessage_clamp (clampId id) sw (clampId_WF id hid), e]
+
+/-- **rewind_with_view_key_all** (every 17-byte identifier): as `rewind_with_view_key_exact`, with
+the identifier coming back with its depth byte clamped to 4; which identifiers a view key covers
+does not depend on the depth byte beyond 4 either. -/
+theorem rewind_with_view_key_all {K P : Type} (kd : KeyDeriv K) (hinj : DeriveInj kd) (cr : Crypto P)
+    (rn pn : Opening → Nat) (vk : List ChildNumber) (amount : Nat) (id : Ident) (c : Opening) (proof : P)
+    (hid : IdWF id) (ha : amount < 2^64) (ha0 : amount ≠ 0)
+    (hc : commit kd amount id .none = .ok c)
+    (hp : proofCreate kd cr (newBuilder kd rn pn) amount id .none = .ok proof) :
+    proofRewind cr (viewBuilder kd vk rn) c proof =
+      (if viewCovers vk id = true then .some amount (clampId id) .none else .none) ∧
+    viewCovers vk (clampId id) = viewCovers vk id := by
+  have hcovEq : viewCovers vk (clampId id) = viewCovers vk id := by
+    simp only [viewCovers, Ident.words, toPath_clampId id hid]
+  refine ⟨?_, hcovEq⟩
+  have hv := commit_ok hc
+  have hc4 : commit kd amount (clampId id) .none = .ok c := by
+    rw [← (derive_total kd amount id .none hid).2.2]; exact hc
+  -- the proof a ProofBuilder would create for the clamped identifier is rewound the same way
+  simp only [proofCreate, hc, newBuilder] at hp
+  injection hp with hp
+  subst hp
+  obtain ⟨v, k⟩ := c
+  simp only at hv
+  subst hv
+  have hlen : (proofMessage id .none).length = 20 := by
+    obtain ⟨hl, _⟩ := hid
+    simp [proofMessage, hl]
+  simp only [proofRewind, viewBuilder, cr.rewind_same _ _ _ _ _ ha hlen,
+    view_check_msg_clamp kd vk ⟨v, k⟩ v id .none hid]
+  have hid4 := clampId_WF id hid
+  have hd4 := clampId_depthByte id
+  have hiff := view_key_covers_iff kd hinj vk v (clampId id) ⟨v, k⟩ hid4 hd4 ha0 hc4
+  rw [← hcovEq]
+  by_cases hcov : viewCovers vk (clampId id) = true
+  · rw [if_pos hcov, hiff.mpr hcov]
+  · rw [if_neg hcov]
+    cases hr : viewCheckAt kd vk ⟨v, k⟩ v (proofMessage (clampId id) .none) with
+    | none => rfl
+    | some id' sw' =>
+      obtain ⟨h1, h2, _, _, h5⟩ := view_check_exact kd hinj vk v (clampId id) id' .none sw' ⟨v, k⟩ hid4 hd4 hc4 hr
+      exact absurd h5 hcov
+    | err =>
+      exfalso
+      rw [viewCheckAt_honest kd vk ⟨v, k⟩ v (clampId id) .none hid4 hd4] at hr
+      simp only [ha0, if_false] at hr
+      repeat' split at hr
+      all_goals cases hr
+    | panic =>
+      exfalso
+      rw [viewCheckAt_honest kd vk ⟨v, k⟩ v (clampId id) .none hid4 hd4] at hr
+      simp only [ha0, if_false] at hr
+      repeat' split at hr
+      all_goals cases hr
+
+/-- Non-vacuity of the `…_all` statements (kernel-evaluated, term keychain, toy crypto): an output
+created for the identifier with depth byte 200 and words (1, 2, 3, 4) is rewound by its
+`ProofBuilder` and by the root view key to the identifier with depth byte 4 — the key and the
+commitment are those of `m/1/2/3/4`. -/
+example :
+    let id := deriveKeyId 200 1 2 3 4
+    let id4 := deriveKeyId 4 1 2 3 4
+    IdWF id ∧ clampId id = id4 ∧ id ≠ id4 ∧
+    (∃ c p, commit termKD 9 id .none = .ok c ∧ commit termKD 9 id4 .none = .ok c ∧
+      proofCreate termKD toyCrypto (newBuilder termKD (fun _ => 11) (fun _ => 12)) 9 id .none = .ok p ∧
+      proofRewind toyCrypto (newBuilder termKD (fun _ => 11) (fun _ => 12)) c p = .some 9 id4 .none ∧
+      proofRewind toyCrypto (viewBuilder termKD [] (fun _ => 11)) c p = .some 9 id4 .none) :=
+  ⟨toIdentifier_WF _, by decide, by decide, _, _, rfl, rfl, rfl, by decide +kernel, by decide +kernel⟩
 
 /-- Non-vacuity (kernel-evaluated on the collision-free term keychain): the view key of the hardened
 account `m/0'` rewinds the outputs at `m/0'/5/9`, `m/0'/5`, `m/0'/1/2/3` and at `m/0'` itself to
@@ -679,10 +822,11 @@ theorem different_seeds_different_master {K : Type} (sd : SeedDeriv K) (hinj : S
     (s s' : Bytes) (hne : s ≠ s') :
     sd.secret (sd.masterOf s) ≠ sd.secret (sd.masterOf s') ∧
     (∀ c, NonceInj sd → sd.rn s c ≠ sd.rn s' c) ∧
-    (∀ amount id sw c c', SwitchInj sd → id.toPath.depth ≤ 4 →
+    (∀ amount id sw c c', SwitchInj sd →
       commit (sd.kd s) amount id sw = .ok c → commit (sd.kd s') amount id sw = .ok c' → c ≠ c') :=
   ⟨master_ne sd hinj s s' hne, fun c hn => nonce_ne sd hinj hn s s' hne c,
-    fun amount id sw c c' hsw hd h h' => commit_ne sd hinj hsw s s' hne amount id sw c c' hd h h'⟩
+    fun amount id sw c c' hsw h h' =>
+      commit_ne sd hinj hsw s s' hne amount id sw c c' (toPath_depth_le4 id) h h'⟩
 
 /-- **other_seed_recovers_nothing** (seeds of any length).  An output created under seed `s` with
 either proof-builder generation, in either switch mode, for any amount and identifier, is rewound
@@ -710,7 +854,7 @@ theorem other_seed_recovers_nothing {K P : Type} (sd : SeedDeriv K) (hinj : Seed
 instantiated with the keychain of the seed. -/
 theorem own_seed_recovers {K P : Type} (sd : SeedDeriv K) (cr : Crypto P) (s : Bytes)
     (pn : Opening → Nat) (amount : Nat) (id : Ident) (sw : Switch) (c : Opening) (proof : P)
-    (hid : IdWF id) (hd : id.toPath.depth ≤ 4) (ha : amount < 2^64)
+    (hid : IdWF id) (hd : id.depthByte ≤ 4) (ha : amount < 2^64)
     (hc : commit (sd.kd s) amount id sw = .ok c)
     (hp : proofCreate (sd.kd s) cr (newBuilder (sd.kd s) (sd.rn s) pn) amount id sw = .ok proof) :
     proofRewind cr (newBuilder (sd.kd s) (sd.rn s) pn) c proof = .some amount id sw :=
